@@ -4,8 +4,13 @@ from __future__ import annotations
 import ast
 import bisect
 import builtins
+import fnmatch
+import glob as _glob
+import json
 import math
 import operator
+import posixpath
+import re
 import statistics
 from fractions import Fraction
 
@@ -96,7 +101,18 @@ class _Unsup(Exception):
 
 
 class _Raised(_WouldRaise):
-    """the analysed code raises on the representative input (a `raise` statement, or an operation that raises at run time)."""
+    """the analysed code raises on the representative input (a `raise` statement, or an operation that raises at run time). `etype` names the exception class where it is known
+    (a `raise X(...)` statement, an exception of the modelled environment): a `try` statement of the analysed code is decided on it."""
+
+    def __init__(self, text, etype=None):
+        super().__init__(text)
+        self.etype = etype
+
+
+# exception class -> the builtin classes above it (what an `except <name>` clause of the analysed code catches); classes of the repository are matched by their own name only
+_EXC_BASES = {"FileNotFoundError": ("OSError", "IOError", "EnvironmentError"), "FileExistsError": ("OSError", "IOError", "EnvironmentError"), "NotADirectoryError": ("OSError", "IOError", "EnvironmentError"),
+              "IsADirectoryError": ("OSError", "IOError", "EnvironmentError"), "PermissionError": ("OSError", "IOError", "EnvironmentError"), "KeyError": ("LookupError",), "IndexError": ("LookupError",),
+              "ZeroDivisionError": ("ArithmeticError",), "JSONDecodeError": ("ValueError",), "UnicodeDecodeError": ("ValueError",)}
 
 
 class _Closure:
@@ -366,6 +382,8 @@ class _Machine:
             return None
         f = e.func
         d = dotted(f)
+        if d == "logging.getLogger":
+            return None  # a logger: what is called on it is a logging call (never interpreted)
         if d == "isinstance" and len(e.args) == 2 and not e.keywords:
             ts = e.args[1].elts if isinstance(e.args[1], ast.Tuple) else [e.args[1]]
             if all(dotted(x) in _M_TYPES for x in ts):
@@ -588,7 +606,16 @@ class _Machine:
             elif isinstance(s, ast.Return):
                 return ("return", self.expr(s.value, env) if s.value is not None else None)
             elif isinstance(s, ast.Raise):
-                raise _Raised(f"raise {short(s.exc, 80) if s.exc is not None else ''}".strip())
+                raise _Raised(f"raise {short(s.exc, 80) if s.exc is not None else ''}".strip(),
+                              etype=last_attr(s.exc.func if isinstance(s.exc, ast.Call) else s.exc) if s.exc is not None else None)
+            elif isinstance(s, ast.With):
+                r = self.with_(s, env)
+                if r is not None:
+                    return r
+            elif isinstance(s, ast.Try):
+                r = self.try_(s, env)
+                if r is not None:
+                    return r
             elif isinstance(s, ast.Break):
                 return ("break",)
             elif isinstance(s, ast.Continue):
@@ -607,6 +634,59 @@ class _Machine:
             else:
                 raise _Unsup(f"statement kind {type(s).__name__} at line {getattr(s, 'lineno', '?')}")
         return None
+
+    def with_(self, s, env):
+        """`with <expr> [as <name>]: body` for the context managers of the modelled environment (a _Stub that declares itself one, e.g. a file of the model file system: entering gives the
+        object itself, leaving has no effect the model does not already show); any other context manager is not interpreted."""
+        for item in s.items:
+            v = self.expr(item.context_expr, env)
+            if not (isinstance(v, _Stub) and v.fields.get("__context__") is True):
+                raise _Unsup(f"context manager `{short(item.context_expr, 60)}` at line {getattr(s, 'lineno', '?')}")
+            if item.optional_vars is not None:
+                self.assign(item.optional_vars, v, env)
+        return self.block(s.body, env)
+
+    def catches(self, handler, x):
+        """does `except <type>` catch the exception the analysed code raised? Decided where the exception class is known; bare / Exception / BaseException catch everything the
+        machine models as raised."""
+        if handler.type is None:
+            return True
+        names = [last_attr(t_) for t_ in (handler.type.elts if isinstance(handler.type, ast.Tuple) else [handler.type])]
+        if any(n_ in ("Exception", "BaseException") for n_ in names):
+            return True
+        if x.etype is None or any(n_ is None for n_ in names):
+            raise _Unsup(f"whether `except {short(handler.type, 40)}` catches `{str(x)[:60]}` is not decided")
+        return any(n_ == x.etype or n_ in _EXC_BASES.get(x.etype, ()) for n_ in names)
+
+    def try_(self, s, env):
+        """try / except / else / finally over the exceptions the machine models (_Raised); what it cannot evaluate (CannotEval / _Unsup) is never caught by the analysed code's handlers."""
+        r, pending = None, None
+        try:
+            r = self.block(s.body, env)
+        except _Raised as x:
+            h = next((h_ for h_ in s.handlers if self.catches(h_, x)), None)
+            if h is None:
+                pending = x
+            else:
+                if h.name:
+                    env[h.name] = Record(args=(str(x),))
+                try:
+                    r = self.block(h.body, env)
+                except _Raised as x2:
+                    pending = x if (str(x2) == "raise" and x2.etype is None) else x2  # a bare `raise` re-raises what was caught
+        else:
+            if r is None and s.orelse:
+                try:
+                    r = self.block(s.orelse, env)
+                except _Raised as x2:
+                    pending = x2
+        if s.finalbody:
+            rf = self.block(s.finalbody, env)
+            if rf is not None:
+                return rf  # (as in Python: a jump out of `finally` wins)
+        if pending is not None:
+            raise pending
+        return r
 
     def run(self, func, args=(), kwargs=None, recv=None):
         """('return', value) | ('raise', text) for one call of func on representative arguments."""
@@ -1067,6 +1147,594 @@ def per_shard_statistics(chk, rid, met, calc, call):
             chk.ob(rid, inst, ok, f, detail, key=key)
 
 
+# ---- the Elasticsearch-backed metrics store, run against a stand-in for Elasticsearch ---------------------------------------------------------------------------------------------
+_ES_RACE, _ES_OTHER_RACE = "r", "another-race"  # (_record() stores the race id "r")
+
+
+def _mro_classes(mod, cls, seen=None):
+    """the class and its bases defined in the same module (nearest first)."""
+    seen = seen or set()
+    out = [cls]
+    for b in cls.bases:
+        bc = mod.get(last_attr(b) or "", required=False)
+        if isinstance(bc, ast.ClassDef) and bc.name not in seen:
+            out += _mro_classes(mod, bc, seen | {cls.name})
+    return out
+
+
+def _es_field(doc, path):
+    """the value of a (possibly dotted) field of a stored record, as a term filter / an aggregation of Elasticsearch reads it."""
+    if path in doc:
+        return doc[path]
+    cur = doc
+    for part in path.split("."):
+        if not isinstance(cur, dict) or part not in cur:
+            return None
+        cur = cur[part]
+    return cur
+
+
+def _es_same(have, want):
+    """a term clause on a keyword / boolean / numeric field matches the exact value (a value that is not a JSON scalar matches nothing)."""
+    if isinstance(want, bool) or isinstance(have, bool):
+        return isinstance(want, bool) and isinstance(have, bool) and have == want
+    if isinstance(want, str) or isinstance(have, str):
+        return isinstance(want, str) and isinstance(have, str) and have == want
+    return isinstance(want, _NUM) and isinstance(have, _NUM) and have == want
+
+
+def _es_matches(doc, clause):
+    """does the stored record match the query clause? The fragment of the query DSL that has an exact reading on keyword fields is interpreted: bool (filter / must / must_not),
+    term, terms, match_all. Anything else (range, wildcard, prefix, match, should, scripts ...) is not interpreted: the verdict is then 'not recognised'."""
+    if not isinstance(clause, dict) or len(clause) != 1:
+        raise CannotEval(f"query clause {clause!r} is not interpreted by the stand-in for Elasticsearch"[:160])
+    ((kind, body),) = clause.items()
+    if kind == "match_all":
+        return True
+    if kind in ("term", "terms") and isinstance(body, dict) and len(body) == 1:
+        ((fld, want),) = body.items()
+        if not isinstance(fld, str):
+            raise CannotEval(f"query clause {clause!r}: field name"[:160])
+        have = _es_field(doc, fld)
+        if kind == "terms":
+            if not isinstance(want, (list, tuple)):
+                raise CannotEval(f"query clause {clause!r}: terms expects a list"[:160])
+            return any(_es_same(have, w_) for w_ in want)
+        if isinstance(want, dict):
+            if set(want) - {"value", "boost"} or "value" not in want:
+                raise CannotEval(f"query clause {clause!r} is not interpreted by the stand-in for Elasticsearch"[:160])
+            want = want["value"]
+        return _es_same(have, want)
+    if kind == "bool" and isinstance(body, dict) and set(body) <= {"filter", "must", "must_not"}:
+        as_list = lambda v: v if isinstance(v, list) else [v]
+        return all(_es_matches(doc, c_) for k_ in ("filter", "must") for c_ in as_list(body.get(k_, []))) and not any(_es_matches(doc, c_) for c_ in as_list(body.get("must_not", [])))
+    raise CannotEval(f"query clause `{kind}` ({short_repr(body)}) is not interpreted by the stand-in for Elasticsearch")
+
+
+def short_repr(v, n=80):
+    t = repr(v)
+    return t if len(t) <= n else t[: n - 3] + "..."
+
+
+def _es_agg(spec, sel):
+    """the answer of Elasticsearch to one aggregation over the selected records: terms (buckets of a boolean / keyword field), stats, percentiles (answered with the documented
+    linear interpolation: what matters to the rule is which value is handed back for which percentile, not how Elasticsearch approximates it)."""
+    if not isinstance(spec, dict) or len(spec) != 1:
+        raise CannotEval(f"aggregation {short_repr(spec)} is not interpreted by the stand-in for Elasticsearch")
+    ((kind, body),) = spec.items()
+    fld = body.get("field") if isinstance(body, dict) else None
+    if not isinstance(fld, str):
+        raise CannotEval(f"aggregation {short_repr(spec)}: no field")
+    vals = [v for v in (_es_field(d, fld) for d in sel) if v is not None]
+    if kind == "terms" and set(body) <= {"field", "size"}:
+        counts = {}
+        for v in vals:
+            counts[v] = counts.get(v, 0) + 1
+        buckets = [dict({"key": (1 if v else 0), "key_as_string": "true" if v else "false"} if isinstance(v, bool) else {"key": v}, doc_count=c_) for v, c_ in counts.items()]
+        return {"doc_count_error_upper_bound": 0, "sum_other_doc_count": 0, "buckets": sorted(buckets, key=lambda b_: -b_["doc_count"])}
+    if kind == "stats" and set(body) <= {"field"}:
+        if not all(isinstance(v, _NUM) and not isinstance(v, bool) for v in vals):
+            raise CannotEval(f"stats aggregation over the non-numeric field {fld!r}")
+        return {"count": len(vals), "min": min(vals) if vals else None, "max": max(vals) if vals else None, "avg": (sum(vals) / len(vals)) if vals else None, "sum": float(sum(vals))}
+    if kind == "percentiles" and set(body) <= {"field", "percents"}:
+        try:
+            ps_ = [float(p_) for p_ in body.get("percents", [1, 5, 25, 50, 75, 95, 99])]
+        except (TypeError, ValueError):
+            raise CannotEval(f"percentiles aggregation: percents {short_repr(body.get('percents'))}")
+        ordered = sorted(vals)
+        return {"values": {str(p_): (_ref_percentile(ordered, p_)[1] if ordered else None) for p_ in ps_}}
+    raise CannotEval(f"aggregation `{kind}` ({short_repr(body)}) is not interpreted by the stand-in for Elasticsearch")
+
+
+def _es_response(body, sel):
+    """the search response for the selected records: total, the first `size` hits in the requested order, the aggregations."""
+    unknown = set(body) - {"query", "size", "sort", "aggs", "aggregations", "track_total_hits"}
+    if unknown:
+        raise CannotEval(f"search request member(s) {sorted(unknown)} are not interpreted by the stand-in for Elasticsearch")
+    hits = list(sel)
+    for s_ in reversed(body.get("sort") or []):
+        if isinstance(s_, str):
+            fld, order = s_, "asc"
+        elif isinstance(s_, dict) and len(s_) == 1:
+            ((fld, spec),) = s_.items()
+            order = spec if isinstance(spec, str) else spec.get("order", "asc") if isinstance(spec, dict) and set(spec) <= {"order"} else None
+        else:
+            fld = order = None
+        if not isinstance(fld, str) or order not in ("asc", "desc"):
+            raise CannotEval(f"sort clause {short_repr(s_)} is not interpreted by the stand-in for Elasticsearch")
+        try:
+            hits = sorted(hits, key=lambda d: _es_field(d, fld), reverse=order == "desc")
+        except TypeError:
+            raise CannotEval(f"sort clause {short_repr(s_)}: the field is not ordered in the representative records")
+    size = body.get("size", 10)
+    if isinstance(size, bool) or not isinstance(size, int) or size < 0:
+        raise CannotEval(f"search request size {size!r}")
+    copy_ = lambda d: {k_: (dict(v_) if isinstance(v_, dict) else list(v_) if isinstance(v_, list) else v_) for k_, v_ in d.items()}
+    res = {"took": 1, "timed_out": False,
+           "hits": {"total": {"value": len(sel), "relation": "eq"}, "max_score": None, "hits": [{"_index": "rally-metrics", "_id": str(i_), "_score": None, "_source": copy_(d)} for i_, d in enumerate(hits[:size])]}}
+    aggs = body.get("aggs", body.get("aggregations"))
+    if aggs is not None:
+        if not isinstance(aggs, dict):
+            raise CannotEval("aggregations of the search request are not a mapping")
+        res["aggregations"] = {nm: _es_agg(spec, sel) for nm, spec in aggs.items()}
+    return res
+
+
+class _EsRuns:
+    """runs query methods of the Elasticsearch metrics store (its own and the inherited ones, machine) against a stand-in for the Elasticsearch client: every search request the method
+    sends is EVALUATED on representative stored records (term filters, sort, size, terms / stats / percentiles aggregations) and recorded together with the records it selects."""
+
+    def __init__(self, mod, cls, mfuncs, enum):
+        self.cls, self.mfuncs, self.enum = cls, mfuncs, enum
+        self.methods = _mro_methods(mod, cls)
+        # by role: the attribute holding the client is the one the store's methods call .search(...) on
+        votes = {}
+        for f in mod.methods(cls).values():
+            for c in source.calls_in(f):
+                if isinstance(c.func, ast.Attribute) and c.func.attr == "search" and is_self_attr(c.func.value):
+                    votes[c.func.value.attr] = votes.get(c.func.value.attr, 0) + 1
+        if not votes:
+            raise AnchorMissing(f"attribute of {cls.name} holding the Elasticsearch client (self.<attr>.search(...))")
+        self.client_attr = max(votes, key=votes.get)
+        # by data flow: the attribute holding the race id is the one `open` assigns from its race id parameter (or the race id of the open context); every other attribute the
+        # constructors / open assign holds a marker
+        self.attrs, self.race_attr = set(), None
+        for k in _mro_classes(mod, cls):
+            for nm in ("__init__", "open"):
+                f = mod.methods(k).get(nm)
+                for n in walk_body(f) if f is not None else []:
+                    if isinstance(n, ast.Assign) and is_self_attr(n.targets[0]):
+                        self.attrs.add(n.targets[0].attr)
+                        if nm == "open" and ((isinstance(n.value, ast.Name) and n.value.id == "race_id") or (isinstance(n.value, ast.Subscript) and source.is_const(n.value.slice, "race-id"))):
+                            self.race_attr = self.race_attr or n.targets[0].attr
+        # by data flow: an attribute the store copies into every record it writes (`"environment": self._environment_name` in the record literal of _put_metric) holds what the
+        # representative records carry under that key, so a search that also filters by such a field selects the same records
+        self.stored_as = {}
+        pm = self.methods.get("_put_metric")
+        for n in ast.walk(pm) if pm is not None else []:
+            if isinstance(n, ast.Dict):
+                for k_, v_ in zip(n.keys, n.values):
+                    if isinstance(k_, ast.Constant) and isinstance(k_.value, str) and is_self_attr(v_):
+                        self.stored_as.setdefault(v_.attr, k_.value)
+        self.race_attr = self.race_attr or next((a for a, k_ in self.stored_as.items() if k_ == "race-id"), None)
+        if self.race_attr is None:
+            raise AnchorMissing("attribute of the metrics store holding the race id (self.<attr> = race_id in MetricsStore.open / \"race-id\": self.<attr> in _put_metric)")
+
+    def kwargs(self, q, **roles):
+        """arguments for one query by the ROLE of the parameters of the MetricsStore API (by position: name, task, operation_type, sample_type unless the API says otherwise)."""
+        ps_ = [p_ for p_ in params_of(self.methods[q]) if p_ not in ("self", "cls")]
+        order = _QUERY_ROLES.get(q, ("name", "task", "operation_type", "sample_type", "node_name", "mapper"))
+        missing = [r_ for r_ in roles if r_ not in order[: len(ps_)]]
+        if missing:
+            raise CannotEval(f"{q}: no parameter for {missing} (parameters {ps_})")
+        return {p_: roles[r_] for r_, p_ in zip(order, ps_) if r_ in roles}
+
+    def run(self, q, docs, **roles):
+        """(kind, value, [(search body, records it selects)]) for one query on the representative records."""
+        log = []
+
+        def search(a, k, node):
+            b = dict(zip(("index", "body"), a))
+            b.update(k)
+            body = b.get("body")
+            if not isinstance(body, dict) or not isinstance(body.get("query"), dict):
+                raise CannotEval(f"search request without a query: {short_repr(body)}")
+            sel = [d for d in docs if _es_matches(d, body["query"])]
+            log.append((body, sel))
+            return _es_response(body, sel)
+
+        fields = {a: f"<{a}>" for a in self.attrs}
+        sample = _record("m", "t", "o", "normal")
+        fields.update({a: sample[k_] for a, k_ in self.stored_as.items() if k_ in sample})
+        fields.update({self.race_attr: _ES_RACE, self.client_attr: _Stub(calls={"search": search}), "logger": None})
+        m = _Machine(methods=self.methods, functions=self.mfuncs, names={"SampleType": self.enum})
+        kind, val = m.run(self.methods[q], [], self.kwargs(q, **roles), recv=Record(**fields))
+        return kind, val, log
+
+
+def _es_docs():
+    """representative stored records: several per (metric name, task, operation type, sample type) with distinct values and mixed success flags, and for every kind one failed record
+    of ANOTHER race in the same index."""
+    docs = []
+    for i, k_ in enumerate(_KINDS):
+        for j in range(1 + i % 4):
+            docs.append(_record(*k_, ok=(i + j) % 3 != 0, value=20.0 + ((i * 7) % 16) * 2.5 + 0.125 * i + 11.0 * j))
+        docs.append(dict(_record(*k_, ok=False, value=-1.0), **{"race-id": _ES_OTHER_RACE}))
+    return docs
+
+
+def es_store_queries(chk, rid, met, mfuncs, enum):
+    """The Elasticsearch metrics store answers the same requests as the in-memory store. Every query method of the MetricsStore API the results calculator uses is RUN (machine) against
+    a stand-in for the Elasticsearch client; the search request it sends is evaluated on representative stored records: it must select exactly the records of THIS race the request
+    asks for (metric name; task / operation type / sample type when given), and what the method hands back must be the statistic of the records the search selected."""
+    ES = met.cls("EsMetricsStore")
+    es = _EsRuns(met, ES, mfuncs, enum)
+    normal = [m for m in enum.fields.values() if m.fields["name"].lower() == "normal"]
+    if not normal:
+        raise AnchorMissing("SampleType.Normal")
+    st_of = lambda s_: None if s_ is None else normal[0]
+    docs = _es_docs()
+    # (a request for Warmup samples is not asked: `if sample_type:` drops that filter because SampleType.Warmup == 0 - advisory O8.5, the results only ever ask for Normal samples)
+    dedupe = lambda rs: [r_ for i_, r_ in enumerate(rs) if r_ not in rs[:i_]]
+    per_query = {
+        "get_error_rate": [("service_time", t_, o_, s_) for t_ in ("A", "B") for o_ in (None, "X") for s_ in (None, "normal")],
+        "get_one": dedupe([(n_, t_, None, s_) for n_, t_, _o, s_ in _VALUE_REQUESTS]),
+        "get_unit": dedupe([(n_, t_, o_, None) for n_, t_, o_, _s in _VALUE_REQUESTS]),
+    }
+    wanted_p = [50, 99.9, 100]
+    described = lambda d: f"{d['name']} / task {d['task']} / operation type {d['operation-type']} / {d['sample-type']} sample / race {d['race-id']!r}"
+    for q in ("get_error_rate", "get_stats", "get_percentiles", "get_mean", "get_median", "get", "get_raw", "get_unit", "get_one"):
+        fd = es.methods.get(q)
+        if fd is None:
+            raise AnchorMissing(f"EsMetricsStore.{q}")
+        sel_ok, sel_detail, val_ok, val_detail, searched = True, "", True, "", 0
+        try:
+            for rq in per_query.get(q, _VALUE_REQUESTS):
+                name, task, ot, st = rq
+                roles = {"task": task, "operation_type": ot, "sample_type": st_of(st), "name": name}
+                if q == "get_error_rate":
+                    roles.pop("name")
+                if q == "get_one":
+                    roles.pop("operation_type")
+                if q == "get_unit":
+                    roles.pop("sample_type")
+                if q == "get_percentiles":
+                    roles["percentiles"] = list(wanted_p)
+                kind, got, log = es.run(q, docs, **roles)
+                rq_txt = f"request {name} / task {task!r} / operation type {ot!r} / sample type {st}"
+                want_sel = [d for d in docs if d["race-id"] == _ES_RACE and _ref_match(d, name, task, ot, st)]
+                searched += len(log)
+                for body, sel in log:
+                    extra, lost = [d for d in sel if not any(d is w_ for w_ in want_sel)], [d for d in want_sel if not any(d is s_ for s_ in sel)]
+                    if (extra or lost) and sel_ok:
+                        sel_ok = False
+                        sel_detail = (f"{rq_txt}: the search selects {len(sel)} record(s), the request {len(want_sel)}; " +
+                                      (f"e.g. it also selects a record of {described(extra[0])}" if extra else f"e.g. it misses a record of {described(lost[0])}") +
+                                      f" (filter sent: {short_repr(body.get('query'), 200)})")
+                if kind == "raise":
+                    if val_ok:
+                        val_ok, val_detail = False, f"{rq_txt}: {got}"
+                    continue
+                if not log:
+                    continue
+                sel = log[-1][1]  # the statistic is compared with that of the records the search SELECTED (which records it should select is the obligation above)
+                F = [d["value"] for d in sel]
+                bad = None
+                if q == "get_error_rate":
+                    want = (sum(1 for d in sel if d["meta"]["success"] is False) / len(sel)) if sel else 0.0
+                    bad = None if isinstance(got, _NUM) and not isinstance(got, bool) and _close(float(got), want) else f"error rate {got!r}, expected {want!r} ({len(sel)} selected records)"
+                elif q == "get_stats" and F:
+                    want = {"count": len(F), "min": min(F), "max": max(F), "avg": sum(F) / len(F)}
+                    bad = None if isinstance(got, dict) and all(_close(got.get(k_), w_) for k_, w_ in want.items()) else f"statistics {short_repr(got, 120)}, expected {want}"
+                elif q == "get_mean":
+                    want = (sum(F) / len(F)) if F else None
+                    bad = None if _close(got, want) else f"mean {got!r}, expected {want!r}"
+                elif q == "get_median":
+                    want = _ref_percentile(sorted(F), 50)[1] if F else None
+                    bad = None if _close(got, want) else f"median {got!r}, expected the 50th percentile {want!r} of the selected values"
+                elif q == "get":
+                    bad = None if isinstance(got, list) and sorted(got, key=repr) == sorted(F, key=repr) else f"values {short_repr(got, 100)}, expected those of the {len(F)} selected records"
+                elif q == "get_percentiles" and F:
+                    if not isinstance(got, dict):
+                        bad = f"percentiles {got!r} for {len(F)} selected records"
+                    else:
+                        try:
+                            by_p = {float(k_): v_ for k_, v_ in got.items()}
+                        except (TypeError, ValueError):
+                            by_p = {}
+                        for p_ in wanted_p:
+                            want = _ref_percentile(sorted(F), p_)[1]
+                            if float(p_) not in by_p or not _close(by_p[float(p_)], want):
+                                bad = f"percentile {p_} is {by_p.get(float(p_))!r}, Elasticsearch answered {want!r} for the selected records"
+                                break
+                elif q in ("get_percentiles", "get_stats") and not F:
+                    bad = None if not got or (isinstance(got, dict) and got.get("count") == 0) else f"no record selected but the result is {short_repr(got, 100)}"
+                if bad and val_ok:
+                    val_ok, val_detail = False, f"{rq_txt}: {bad}"
+        except (CannotEval, _Unsup) as x:
+            chk.unknown(rid, f"EsMetricsStore.{q} is not evaluable against the stand-in for Elasticsearch: {x}"[:300], fd)
+            continue
+        if not searched:
+            chk.unknown(rid, f"EsMetricsStore.{q}: no search request reaches the Elasticsearch client", fd)
+            continue
+        chk.ob(rid, f"EsMetricsStore.{q}: the search selects exactly the records of the request (this race, metric name, task, operation type, sample type)", sel_ok, fd, sel_detail[:420],
+               key=f"{_M}:EsMetricsStore.{q}:filter")
+        if q in ("get_error_rate", "get_stats", "get_percentiles", "get_mean", "get_median", "get"):
+            chk.ob(rid, f"EsMetricsStore.{q}: " + ("error rate == failed / all of the selected records" if q == "get_error_rate" else "hands back the statistic Elasticsearch computed over the selected records"),
+                   val_ok, fd, val_detail[:300], key=f"{_M}:EsMetricsStore.{q}:values")
+
+
+# ---- the race file store, run on a model file system --------------------------------------------------------------------------------------------------------------------------------
+class _LazyCalls(dict):
+    """name -> callable, filled on first use (a module of the package is only parsed when the analysed code calls into it)."""
+
+    def __init__(self, loader):
+        super().__init__()
+        self.loader, self.loaded = loader, False
+
+    def __bool__(self):
+        return True  # (not yet loaded is not empty)
+
+    def _load(self):
+        if not self.loaded:
+            self.loaded = True
+            self.update(self.loader())
+
+    def __contains__(self, k):
+        self._load()
+        return dict.__contains__(self, k)
+
+    def __getitem__(self, k):
+        self._load()
+        return dict.__getitem__(self, k)
+
+
+class _FsModel:
+    """A model of the part of the environment the race file store touches: a file system (POSIX paths; files with text content, directories), `open`, os / os.path / glob / fnmatch /
+    json functions over it. glob follows the documented semantics (the pattern is matched segment by segment with fnmatch; a pattern without wildcard characters names the path
+    itself). Modules of the package the analysed code calls into (esrally.paths, esrally.utils.io) are NOT modelled: their functions are run by the machine over this model."""
+
+    def __init__(self, repo):
+        self.repo = repo
+        self.files, self.dirs = {}, {"/"}
+        self.consulted = set()  # package modules whose functions were run
+
+    @staticmethod
+    def norm(p):
+        if not isinstance(p, str) or not p:
+            raise CannotEval(f"path {p!r} in the model file system")
+        return posixpath.normpath(p)
+
+    def exists(self, p):
+        return self.norm(p) in self.files or self.norm(p) in self.dirs
+
+    def makedirs(self, p, exist_ok=False):
+        p = self.norm(p)
+        if p in self.files or (p in self.dirs and not exist_ok):
+            raise _Raised(f"os.makedirs({p!r}): the path exists (FileExistsError)", etype="FileExistsError")
+        while p not in self.dirs:
+            self.dirs.add(p)
+            p = posixpath.dirname(p) or "/"
+
+    def listdir(self, p):
+        p = self.norm(p)
+        if p not in self.dirs:
+            raise _Raised(f"os.listdir({p!r}): no such directory (FileNotFoundError)", etype="FileNotFoundError")
+        return sorted(posixpath.basename(x) for x in list(self.files) + list(self.dirs) if x != p and posixpath.dirname(x) == p)
+
+    def glob(self, pattern):
+        pat = self.norm(pattern).split("/")
+        out = []
+        for x in sorted(list(self.files) + list(self.dirs)):
+            segs = x.split("/")
+            if len(segs) == len(pat) and all((fnmatch.fnmatchcase(s_, p_) and not (s_.startswith(".") and not p_.startswith("."))) if re.search(r"[*?\[]", p_) else s_ == p_ for s_, p_ in zip(segs, pat)):
+                out.append(x)
+        return out
+
+    def open(self, path, mode="r"):
+        path = self.norm(path)
+        if mode in ("w", "wt"):
+            if posixpath.dirname(path) not in self.dirs or path in self.dirs:
+                raise _Raised(f"open({path!r}, 'w'): the directory does not exist (FileNotFoundError)", etype="FileNotFoundError")
+            self.files[path] = ""
+
+            def write(a, k, node):
+                if len(a) != 1 or not isinstance(a[0], str):
+                    raise CannotEval("write() of something that is not text")
+                self.files[path] += a[0]
+                return len(a[0])
+
+            return _Stub(calls={"write": write, "close": lambda a, k, n: None, "flush": lambda a, k, n: None}, __context__=True, name=path)
+        if mode in ("r", "rt"):
+            if path not in self.files:
+                raise _Raised(f"open({path!r}): no such file (FileNotFoundError)", etype="FileNotFoundError")
+            return _Stub(calls={"read": lambda a, k, n: self.files[path] if not a and not k else _Machine._no(n), "close": lambda a, k, n: None}, __context__=True, name=path)
+        raise CannotEval(f"open(..., mode={mode!r}) is not modelled")
+
+    # -- what the analysed code sees ----------------------------------------------------------------------------------------------------------------------------------------
+    def hooks(self):
+        def open_(b):
+            a, k = list(b.get("args", [])), dict(b.get("kwargs", {}))
+            if not a and "file" in k:
+                a.append(k.pop("file"))
+            mode = a[1] if len(a) > 1 else k.get("mode", "r")
+            if not a or len(a) > 2 or set(k) - {"mode", "encoding", "newline", "errors"}:
+                raise CannotEval("open(...) arguments")
+            return self.open(a[0], mode)
+
+        return {"open": open_}
+
+    def names(self, mod, depth=0):
+        """module-level names of `mod` bound (by its imports) to a modelled library module or to a module of the package."""
+        one = lambda fn: (lambda a, k, n: fn(*a, **k))
+
+        def guarded(fn):
+            def f(a, k, n):
+                try:
+                    return fn(*a, **k)
+                except (TypeError, ValueError, AttributeError) as x:
+                    raise CannotEval(f"call {short(n, 60)}: {type(x).__name__}")
+            return f
+
+        def dumps(a, k, n):
+            if len(a) != 1 or set(k) - {"indent", "ensure_ascii", "sort_keys", "separators"}:
+                raise CannotEval(f"call {short(n, 60)}")
+            try:
+                return json.dumps(a[0], **k)
+            except (TypeError, ValueError) as x:
+                raise CannotEval(f"call {short(n, 60)}: {type(x).__name__}: the representative value is not plain JSON")
+
+        def loads(a, k, n):
+            if len(a) != 1 or k or not isinstance(a[0], str):
+                raise CannotEval(f"call {short(n, 60)}")
+            try:
+                return json.loads(a[0])
+            except ValueError as x:
+                raise _Raised(f"`{short(n, 60)}` raises JSONDecodeError ({x})", etype="JSONDecodeError")
+
+        def via(f_obj, meth, *args):
+            if not isinstance(f_obj, _Stub) or meth not in f_obj.calls:
+                raise CannotEval(f"json: not a file of the model ({meth})")
+            return f_obj.calls[meth](list(args), {}, None)
+
+        path_calls = {"join": guarded(posixpath.join), "dirname": guarded(posixpath.dirname), "basename": guarded(posixpath.basename), "normpath": guarded(posixpath.normpath),
+                      "split": guarded(posixpath.split), "splitext": guarded(posixpath.splitext), "exists": guarded(self.exists), "lexists": guarded(self.exists),
+                      "isfile": guarded(lambda p_: self.norm(p_) in self.files), "isdir": guarded(lambda p_: self.norm(p_) in self.dirs)}
+        library = {
+            "os.path": lambda: _Stub(calls=path_calls),
+            "os": lambda: _Stub(calls={"makedirs": guarded(lambda p_, mode=0o777, exist_ok=False: self.makedirs(p_, exist_ok)), "listdir": guarded(self.listdir)}, path=_Stub(calls=path_calls), sep="/"),
+            "glob": lambda: _Stub(calls={"glob": guarded(lambda p_, recursive=False: self.glob(p_) if not recursive else _Machine._no(ast.Constant(value="glob(recursive=True)"))),
+                                         "iglob": guarded(lambda p_: self.glob(p_)), "escape": guarded(_glob.escape), "has_magic": guarded(_glob.has_magic)}),
+            "fnmatch": lambda: _Stub(calls={"fnmatch": guarded(fnmatch.fnmatchcase), "fnmatchcase": guarded(fnmatch.fnmatchcase), "filter": guarded(lambda xs, p_: [x for x in xs if fnmatch.fnmatchcase(x, p_)])}),
+            "json": lambda: _Stub(calls={"dumps": dumps, "loads": loads, "dump": lambda a, k, n: via(a[1], "write", dumps(a[:1], k, n)) if len(a) == 2 else _Machine._no(n),
+                                         "load": lambda a, k, n: loads([via(a[0], "read")], {}, n) if len(a) == 1 and not k else _Machine._no(n)}),
+        }
+        out = {}
+        for nm, target in mod.imports.items():
+            if target in library:
+                out[nm] = library[target]()
+            elif target.startswith("esrally.") and depth < 2 and self.repo.exists(target.replace(".", "/") + ".py"):
+                out[nm] = _Stub(calls=_LazyCalls(lambda rel=target.replace(".", "/") + ".py": self.package_module(rel, depth + 1)))
+        return out
+
+    def package_module(self, rel, depth):
+        """name -> callable for the module-level functions of a module of the package: each call is RUN by a machine over the same model."""
+        pm = self.repo.module(rel)
+        fns = _module_functions(pm)
+        names = self.names(pm, depth)
+
+        def runner(fn):
+            def f(a, k, n):
+                self.consulted.add(rel)
+                kind, val = _Machine(functions=fns, names=names, hooks=self.hooks()).run(fn, a, k)
+                if kind == "raise":
+                    raise _Raised(val)
+                return val
+            return f
+
+        return {nm: runner(fn) for nm, fn in fns.items()}
+
+
+# race ids: free text chosen by the user (--race-id). Ids that differ only in case or in a character that is special to glob / fnmatch / regular expressions are DIFFERENT races
+_RACE_IDS = ["5f0e7d7a-6d1c-4f0c-8a53-2f3d1c1f7b42", "shards[1]", "shards[2]", "shards1", "shards2", "what-if?", "what-if2", "run*", "run-2024", "Nightly", "nightly", "a.b+c", "aXb+c", "(x|y)", "x"]
+_ABSENT_RACE_IDS = ["never-stored", "shards[12]", "what-if*", "?", "Nightl[xy]", "run", "shards"]
+
+
+def race_file_round_trip(chk, rid, repo, met, mfuncs):
+    """The file race store is RUN (machine) on a model file system: races with representative user-chosen ids (wildcard characters among them) are stored one after the other, then
+    every one of them is looked up by its id and all of them are listed. What is read back for an id must be the document that was written for exactly that id; an id that was never
+    stored is reported as missing. How the path is built, where existence is tested and which helper reads the files is all the same to the rule."""
+    FS = met.cls("FileRaceStore")
+    methods = _mro_methods(met, FS)
+    store_m, find_m, list_m, init_m = (methods.get(n_) for n_ in ("store_race", "find_by_race_id", "list", "__init__"))
+    if store_m is None or find_m is None or list_m is None or init_m is None or len(params_of(store_m)) != 2 or len(params_of(find_m)) != 2 or len(params_of(list_m)) != 1:
+        raise AnchorMissing("FileRaceStore.__init__ / store_race(self, race) / find_by_race_id(self, race_id) / list(self)")
+    RC = met.cls("Race")
+    if "from_dict" not in met.methods(RC) or "as_dict" not in met.methods(RC):
+        raise AnchorMissing("Race.as_dict / Race.from_dict")
+    fs = _FsModel(repo)
+    settings = {("node", "root.dir"): "/rally", ("system", "env.name"): "env", ("system", "list.max_results"): 1000, ("system", "race.id"): None}
+
+    def opts(a, k, node):
+        b = dict(zip(("section", "key", "default_value", "mandatory"), a))
+        b.update(k)
+        if set(b) - {"section", "key", "default_value", "mandatory"} or "section" not in b or "key" not in b:
+            raise CannotEval(f"call {short(node, 60)}: configuration lookup")
+        v = settings.get((b["section"], b["key"]))
+        if v is not None:
+            return v
+        if b.get("mandatory", True):
+            raise _Raised(f"no value for the mandatory configuration {b['section']}/{b['key']} (ConfigError)", etype="ConfigError")
+        return b.get("default_value")
+
+    cfg = _Stub(calls={"opts": opts})
+    # what Race.from_dict gives for a stored document (the agreement of as_dict / from_dict is O8.4): an object that carries the document and the attributes list filters / sorts by
+    from_dict = lambda a, k, n: (Record(doc=a[0], race_id=a[0]["race-id"], results=a[0].get("results"), track=a[0].get("track"), challenge=a[0].get("challenge"), user_tags=a[0].get("user-tags", {}),
+                                        race_timestamp=a[0]["race-timestamp"], environment_name=a[0].get("environment"), rally_version=a[0].get("rally-version"), pipeline=a[0].get("pipeline"),
+                                        car=a[0].get("car")) if len(a) == 1 and not k and isinstance(a[0], dict) and "race-id" in a[0] and "race-timestamp" in a[0]
+                                 else _Machine._no(n))
+    names = dict(fs.names(met))
+    names[RC.name] = _Stub(calls={"from_dict": from_dict})
+    machine = lambda: _Machine(methods=methods, functions=mfuncs, names=names, hooks=fs.hooks())
+
+    def doc_of(n, race_id):
+        return {"rally-version": "2.11.0", "environment": "env", "race-id": race_id, "race-timestamp": f"20240517T10{n:02d}00Z", "pipeline": "benchmark-only", "user-tags": {}, "track": "tr",
+                "car": ["c"], "results": {"op_metrics": [{"task": "t", "operation": "o", "throughput": {"mean": 100.0 * n, "unit": "ops/s"}, "latency": {"50_0": 1.5 * n, "100_0": 9.0 * n},
+                                                          "error_rate": 0.125 / n}], "total_time": 5000 * n, "segment_count": n}}
+
+    store = Record()
+    stored = {}
+    try:
+        k0, v0 = machine().run(init_m, [cfg], recv=store)
+        if k0 != "return":
+            chk.unknown(rid, f"FileRaceStore.__init__ does not complete with a representative configuration: {v0}"[:300], init_m)
+            return
+        for n, race_id in enumerate(_RACE_IDS, start=1):
+            settings[("system", "race.id")] = race_id  # the store writes the race file of the current race (as `esrally race` does: race.race_id is the configured race id)
+            doc = doc_of(n, race_id)
+            before = dict(fs.files)
+            k1, v1 = machine().run(store_m, [_Stub(calls={"as_dict": lambda a, k, n_, doc=doc: json.loads(json.dumps(doc))}, race_id=race_id, race_timestamp=doc["race-timestamp"])], recv=store)
+            if k1 != "return":
+                chk.unknown(rid, f"FileRaceStore.store_race does not complete on the model file system for the race id {race_id!r}: {v1}"[:300], store_m)
+                return
+            stored[race_id] = doc
+            changed = [p_ for p_ in fs.files if fs.files[p_] != before.get(p_)]
+            if len(changed) != 1:
+                chk.unknown(rid, f"FileRaceStore.store_race({race_id!r}) writes {len(changed)} file(s) of the model file system (expected the one race file)", store_m)
+                return
+        settings[("system", "race.id")] = "the-invocation-that-reads"  # compare / list run as a later invocation with a race id of its own
+        found = {r_: machine().run(find_m, [r_], recv=store) for r_ in _RACE_IDS + _ABSENT_RACE_IDS}
+        kl, listed = machine().run(list_m, [], recv=store)
+    except (CannotEval, _Unsup) as x:
+        chk.unknown(rid, f"the file race store is not evaluable on the model file system: {x}"[:300], find_m)
+        return
+    finally:
+        chk.use(*sorted(fs.consulted))
+    held = lambda v: v.fields.get("doc") if isinstance(v, Record) and isinstance(v.fields.get("doc"), dict) else None
+    wrong = []
+    for r_ in _RACE_IDS:
+        kind, val = found[r_]
+        if kind != "return":
+            wrong.append(f"find_by_race_id({r_!r}) -> {val} although a race was stored under that id")
+        elif held(val) != stored[r_]:
+            wrong.append(f"find_by_race_id({r_!r}) returns " + (f"the race stored under {held(val).get('race-id')!r} (its results, not those of {r_!r})" if held(val) is not None else f"{short_repr(val)}"))
+    chk.ob(rid, "FileRaceStore.find_by_race_id(id) reads back the race (and the results) stored under exactly that id, for every user-chosen id", not wrong, find_m,
+           (f"{len(wrong)} of {len(_RACE_IDS)} stored races: " + "; ".join(wrong[:3]))[:420] if wrong else "", key=f"{_M}:FileRaceStore.find_by_race_id:own-race")
+    ghosts = [f"find_by_race_id({r_!r}) returns the race stored under {(held(found[r_][1]) or {}).get('race-id')!r}" for r_ in _ABSENT_RACE_IDS if found[r_][0] == "return"]
+    chk.ob(rid, "FileRaceStore.find_by_race_id(id) reports an id that was never stored as missing (no other race is returned for it)", not ghosts, find_m,
+           (f"stored ids {_RACE_IDS[1:8]}...: " + "; ".join(ghosts[:3]))[:420] if ghosts else "", key=f"{_M}:FileRaceStore.find_by_race_id:missing")
+    if kl != "return" or not isinstance(listed, (list, tuple)):
+        chk.ob(rid, "FileRaceStore.list() reads back every stored race with its own results", False, list_m, f"{kl} {short_repr(listed, 200)}", key=f"{_M}:FileRaceStore.list:all-races")
+    else:
+        got = [held(v) for v in listed]
+        missing = [r_ for r_ in _RACE_IDS if stored[r_] not in got]
+        alien = [d for d in got if d is None or d not in stored.values()]
+        ok = not missing and not alien and len(got) == len(stored)
+        chk.ob(rid, "FileRaceStore.list() reads back every stored race with its own results", ok, list_m,
+               "" if ok else f"{len(got)} race(s) listed of {len(stored)} stored; not listed (or with other results): {missing[:4]}" + (f"; listed but never stored: {short_repr(alien[0], 100)}" if alien else ""),
+               key=f"{_M}:FileRaceStore.list:all-races")
+
+
 def run(chk):
     repo = chk.repo
     met = repo.module(_M)
@@ -1087,7 +1755,15 @@ def run(chk):
         "summary (known finding F11); per-shard statistics on 8 representative sets of per-shard arrays return, with min/median/max of all values or without numbers (F34). A role that "
         "cannot be located or a shape the machine does not interpret is reported as 'not recognised', never as a falsified obligation."
     )
-    chk.not_decided = "floating-point behaviour of the interpolation, the ES-backed store's aggregations, loss-freeness of JSON number round-trips."
+    chk.explanation += (
+        " The Elasticsearch metrics store is RUN against a stand-in for the Elasticsearch client that evaluates every search request it receives (bool / term filters, sort, size, terms / "
+        "stats / percentiles aggregations) on representative stored records of two races: each query of the MetricsStore API selects exactly the records of the request and hands back "
+        "the statistic of the selected records (O8.11). The race file store is RUN on a model file system (open / os / os.path / glob / fnmatch / json modelled, esrally.paths and "
+        "esrally.utils.io interpreted over the model): races stored under representative user-chosen ids (wildcard characters, upper / lower case) are each read back by find_by_race_id "
+        "and by list with the document written for exactly that id (O8.12)."
+    )
+    chk.not_decided = ("floating-point behaviour of the interpolation, how Elasticsearch approximates percentiles (and any query clause other than bool / term / terms), loss-freeness of JSON "
+                       "number round-trips, file systems that fold case.")
     GC = met.cls("GlobalStatsCalculator")
     gm = met.methods(GC)
     GS = met.cls("GlobalStats")
@@ -1997,6 +2673,20 @@ def run(chk):
              "empty list raises ValueError in the results calculator, no summary is computed and race.json keeps no results at all (F34)")
     per_shard_statistics(chk, "O8.10", met, calc, call)
 
+    # ---- O8.11 the Elasticsearch metrics store honours the request ---------------------------------------------------------------------------------------------------------
+    chk.rule("O8.11", "Elasticsearch metrics store: every query of the MetricsStore API the results are computed from sends a search that selects exactly the records of the request (this race, "
+             "the metric name; the task, operation type and sample type when given), and hands back the statistic of the selected records (error rate == failed / all)", 15,
+             "results computed from an Elasticsearch metrics store (datastore.type = elasticsearch) with warm-up samples, several operation types per task or several races per index: a "
+             "statistic / the error rate includes records the calculator excluded (the in-memory store honours the same request)")
+    es_store_queries(chk, "O8.11", met, mfuncs, enum)
+
+    # ---- O8.12 the race file is read back for the id it was written for ---------------------------------------------------------------------------------------------------
+    chk.rule("O8.12", "race file store: the race (with its results) read back for a race id - by compare through find_by_race_id, by list races through list - is the document that was "
+             "written for exactly that id, for every user-chosen id (characters special to glob / fnmatch / regular expressions, upper and lower case included); an id that was never "
+             "stored is reported as missing", 3,
+             "a user-chosen race id (--race-id) such as `shards[1]` or `what-if?`: compare shows the per-task and global metrics of ANOTHER race (or reports a stored race as missing)")
+    race_file_round_trip(chk, "O8.12", repo, met, mfuncs)
+
 
 from sa.selftest import V  # noqa: E402
 
@@ -2126,7 +2816,8 @@ VARIANTS = [
     V("get_mean with keyword arguments and a guard clause", "keep", _M, "        stats = self.get_stats(name, task, operation_type, sample_type)\n        return stats[\"avg\"] if stats else None",
       "        s = self.get_stats(name, sample_type=sample_type, task=task, operation_type=operation_type)\n        if s is None:\n            return None\n        return s[\"avg\"]"),
     V("get_mean treats an average of 0 as missing", "break", _M, "        return stats[\"avg\"] if stats else None", "        return stats[\"avg\"] if stats and stats[\"avg\"] else None", "O8.8"),
-    V("get_median asks for the numeric 50 and reads it with .get", "keep", _M, "        median = \"50.0\"", "        median = 50"),
+    # (asking for the numeric 50 instead is NOT behaviour-preserving: Elasticsearch keys its answer by "50.0", the Elasticsearch store's get_median would raise KeyError)
+    V("get_median reads the percentile with .get", "keep", _M, "        return percentiles[median] if percentiles else None", "        return percentiles.get(median) if percentiles else None"),
     V("get_median drops the operation type", "break", _M, "        percentiles = self.get_percentiles(name, task, operation_type, sample_type, percentiles=[median])",
       "        percentiles = self.get_percentiles(name, task, None, sample_type, percentiles=[median])", "O8.8"),
     [V("summary queries through a filter dictionary and a helper", "keep", _M, _SUMMARY_QUERIES,
@@ -2256,4 +2947,44 @@ VARIANTS = [
       "        median = self.store.get_percentiles(metric_name, task=task_name, operation_type=operation_type, sample_type=SampleType.Normal, percentiles=[90]).get(90)", "O8.8"),
     V("summary median as the 50th percentile of all sample types", "break", _M, "        median = self.store.get_median(metric_name, task=task_name, operation_type=operation_type, sample_type=SampleType.Normal)",
       "        median = self.store.get_percentiles(metric_name, task=task_name, operation_type=operation_type, percentiles=[50]).get(50)", "O8.1"),
+    # ---- strengthening round 5 (seeded m14 / m15): the Elasticsearch metrics store and the race file store are RUN against models of their environment
+    [V("seed m15: error-rate search lost the sample-type filter in a call-site clean-up", "break", _M, "    def _query_by_name(self, name, task, operation_type, sample_type, node_name):",
+       "    def _query_by_name(self, name, task=None, operation_type=None, sample_type=None, node_name=None):", "O8.11"),
+     V("", "break", _M, "            \"query\": self._query_by_name(\"service_time\", task, operation_type, sample_type, None),", "            \"query\": self._query_by_name(\"service_time\", task, operation_type),")],
+    V("Elasticsearch statistics search ignores the operation type", "break", _M, "            \"query\": self._query_by_name(name, task, operation_type, sample_type, None),\n            \"size\": 0,\n            \"aggs\": {\n                \"metric_stats\"",
+      "            \"query\": self._query_by_name(name, task, None, sample_type, None),\n            \"size\": 0,\n            \"aggs\": {\n                \"metric_stats\"", "O8.11"),
+    V("Elasticsearch sample-type term not lower-cased (matches no stored record)", "break", _M,
+      "                    \"term\": {\n                        \"sample-type\": sample_type.name.lower(),", "                    \"term\": {\n                        \"sample-type\": sample_type.name,", "O8.11"),
+    V("Elasticsearch searches filter by the task in the operation-type term", "break", _M, "                        \"operation-type\": operation_type,", "                        \"operation-type\": task,", "O8.11"),
+    V("Elasticsearch searches are not restricted to the race", "break", _M,
+      "                \"filter\": [\n                    {\n                        \"term\": {\n                            \"race-id\": self._race_id,\n                        },\n                    },\n                    {\n                        \"term\": {\n                            \"name\": name,",
+      "                \"filter\": [\n                    {\n                        \"term\": {\n                            \"environment\": \"e\",\n                        },\n                    },\n                    {\n                        \"term\": {\n                            \"name\": name,", "O8.11"),
+    V("Elasticsearch error rate divides by the successful requests", "break", _M, "            return count_errors / (count_errors + count_success)", "            return count_errors / count_success", "O8.11"),
+    [V("Elasticsearch query builder with defaults, call sites without trailing None (the behaviour-preserving part of m15)", "keep", _M, "    def _query_by_name(self, name, task, operation_type, sample_type, node_name):",
+       "    def _query_by_name(self, name, task=None, operation_type=None, sample_type=None, node_name=None):"),
+     V("", "keep", _M, "            \"query\": self._query_by_name(\"service_time\", task, operation_type, sample_type, None),", "            \"query\": self._query_by_name(\"service_time\", task, operation_type, sample_type=sample_type),"),
+     V("", "keep", _M, "            \"query\": self._query_by_name(name, task, None, sample_type, node_name),", "            \"query\": self._query_by_name(name, task, sample_type=sample_type, node_name=node_name),")],
+    V("Elasticsearch error rate over the total", "keep", _M, "        if count_errors == 0:\n            return 0.0\n        elif count_success == 0:\n            return 1.0\n        else:\n            return count_errors / (count_errors + count_success)",
+      "        total = count_errors + count_success\n        return count_errors / total if total else 0.0"),
+    V("Elasticsearch optional terms appended from a table", "keep", _M,
+      "        if task:\n            q[\"bool\"][\"filter\"].append(\n                {\n                    \"term\": {\n                        \"task\": task,\n                    },\n                },\n            )\n"
+      "        if operation_type:\n            q[\"bool\"][\"filter\"].append(\n                {\n                    \"term\": {\n                        \"operation-type\": operation_type,\n                    },\n                },\n            )\n",
+      "        for field, wanted in ((\"task\", task), (\"operation-type\", operation_type)):\n            if wanted:\n                q[\"bool\"][\"filter\"] += [{\"term\": {field: wanted}}]\n"),
+    V("seed m14: race file looked up through glob (wildcard characters of the id are read as a pattern)", "break", _M,
+      "        race_file = self._race_file(race_id=race_id)\n        if io.exists(race_file):\n            races = self._to_races([race_file])\n            if races:\n                return races[0]\n",
+      "        races = self._to_races(glob.glob(self._race_file(race_id=race_id)))\n        if races:\n            return races[0]\n", "O8.12"),
+    V("race file looked up under the lower-cased id", "break", _M, "        race_file = self._race_file(race_id=race_id)\n", "        race_file = self._race_file(race_id=race_id.lower())\n", "O8.12"),
+    V("race written to another file name than the one read back", "break", _M, "        with open(self._race_file(), mode=\"w\", encoding=\"utf-8\") as f:", "        with open(os.path.join(race_path, \"results.json\"), mode=\"w\", encoding=\"utf-8\") as f:", "O8.12"),
+    V("list() only finds ids with a dash", "break", _M, "        results = glob.glob(self._race_file(race_id=\"*\"))", "        results = glob.glob(self._race_file(race_id=\"*-*\"))", "O8.12"),
+    V("race file looked up by the first stored id the requested id is a prefix of", "break", _M,
+      "        race_file = self._race_file(race_id=race_id)\n        if io.exists(race_file):\n",
+      "        candidates = [c for c in sorted(os.listdir(paths.races_root(self.cfg))) if c.startswith(race_id)]\n        race_file = self._race_file(race_id=candidates[0] if candidates else race_id)\n        if io.exists(race_file):\n", "O8.12"),
+    V("race file looked up through glob with the id escaped", "keep", _M,
+      "        race_file = self._race_file(race_id=race_id)\n        if io.exists(race_file):\n            races = self._to_races([race_file])\n            if races:\n                return races[0]\n",
+      "        races = self._to_races(glob.glob(glob.escape(self._race_file(race_id=race_id))))\n        if races:\n            return races[0]\n"),
+    V("race file existence tested with os.path.isfile in a guard clause", "keep", _M,
+      "        race_file = self._race_file(race_id=race_id)\n        if io.exists(race_file):\n            races = self._to_races([race_file])\n            if races:\n                return races[0]\n",
+      "        race_file = os.path.join(paths.race_root(self.cfg, race_id), \"race.json\")\n        if not os.path.isfile(race_file):\n            raise exceptions.NotFound(f\"No race with race id [{race_id}]\")\n"
+      "        for race in self._to_races([race_file]):\n            return race\n"),
+    V("race file written with json.dump and read with json.load (benign b3 shape)", "keep", _M, "            f.write(json.dumps(doc, indent=True, ensure_ascii=False))", "            json.dump(doc, f, indent=True, ensure_ascii=False)"),
 ]
